@@ -9,3 +9,6 @@ Open Scope Z_scope.
 Definition et_settings : list sensor := ET_settings_arm_fw_22 ++ ET_settings_arm_fw_19 ++ ET_all_settings.
 
 Definition ctx (is745 : bool) (prev p soc : Z) : mctx := mkCtx et_settings et_ws is745 prev schedule_read_value p soc om_offline om_clear.
+
+(* the settings dictionaries of a DT: all settings, then the single-phase or the three-phase ones (later updates win) *)
+Definition dt_settings (three_phase : bool) : list sensor := (if three_phase then DT_settings_three_phase else DT_settings_single_phase) ++ DT_all_settings.
